@@ -772,6 +772,11 @@ def c09_broker(tr, S):
                     if o not in seen[(a, p["topic"])]:
                         flagged.add((o, a))
                         bad(f"publication o{o} on topic {p['topic']} returned Ok at event {p['ret']}, the brokers and a{a} are idle, yet a{a} - whose subscription completed before the publish began and which is alive and strongly held - has not handled it: the publication was lost", idx)
+                        # C06: the failure of one subscriber must not cost another one its publications
+                        failed = [u["x"] for u in tops.values() if u["kind"] == 1 and u["topic"] == p["topic"] and u["x"] in dead
+                                  and S.actors.get(u["x"]) is not None and S.actors[u["x"]].graceful is False]
+                        if failed:
+                            S.bad("C06", f"a{failed[0]} failed, and healthy subscriber a{a} of the same topic lost publication o{o}: the failure of one actor leaks into another", idx)
 
     for idx, e in enumerate(tr):
         t = e[0]
